@@ -261,6 +261,54 @@ example : ((build twoCycle).exportResourcesV Opts.default (build twoCycle).subje
   decide
 example : ((build selfLoop).exportResourceV1 Opts.default 2 (Term.bnode 0)).isSome = true := by decide
 
+/-! ## histories on one builder (repaired export)
+
+  Several calls on the same `ResourceListBuilder`: `Add`, complete exports, exports the consumer abandons
+  after `k` resources (a `break` out of the `iter.Seq`, `ToResourceWriter` returning on a writer
+  error), with any options. In the model — as in the repaired Go code, where the `inlined` set is a local
+  of the iterator function — an export leaves no trace on the builder. The harness runs such histories
+  on the Go code (`desc.hist`, `oracle.hist`) and compares with `Builder.run`. -/
+
+/-- the builder after any history is the builder of the triples added, in order -/
+theorem history_state (h : List (HStep β)) : Builder.empty.run h = build (addedBy h) :=
+  Proofs.C17.run_empty h
+
+/-- An export depends on nothing but the triples added before it: two histories that added the same
+    triples — whatever complete, abandoned or single-resource exports they contain, with whatever options,
+    iteration orders and cut-off points — give the same result for every later export. -/
+theorem export_independent_of_history (h h' : List (HStep β)) (hadd : addedBy h = addedBy h')
+    (opts : Opts) (ord1 ord2 : List (Term β)) (fuel : Nat) (take : Option Nat) :
+    (Builder.empty.run h).exportResourcesVTake opts ord1 ord2 fuel take =
+      (Builder.empty.run h').exportResourcesVTake opts ord1 ord2 fuel take := by
+  rw [history_state, history_state, hadd]
+
+/-- an abandoned export hands over a prefix of what the complete export hands over -/
+theorem abandoned_export_prefix (B : Builder β) (opts : Opts) (ord1 ord2 : List (Term β)) (fuel k : Nat) :
+    B.exportResourcesVTake opts ord1 ord2 fuel (some k) =
+      (B.exportResourcesVTake opts ord1 ord2 fuel none).map (List.take k) := by
+  simp [Builder.exportResourcesVTake, Option.map_map, Function.comp_def]
+
+/-- FULL statement of C17 after an arbitrary history: the complete export that follows is isomorphic to
+    all triples added so far. -/
+theorem flatten_export_after_history (h : List (HStep β)) (opts : Opts) (ord1 ord2 : List (Term β))
+    (hord1 : ord1.Perm (Builder.empty.run h).subjects) (hord2 : ord2.Perm (Builder.empty.run h).subjects)
+    (n : Nat) :
+    ∃ rs, (Builder.empty.run h).exportResourcesVTake opts ord1 ord2 ((addedBy h).length + 1) none = some rs ∧
+      Iso (newTriplesList rs n).1 (addedBy h) := by
+  rw [history_state] at hord1 hord2 ⊢
+  obtain ⟨rs, hrs, hiso⟩ := flatten_export_repaired (addedBy h) opts ord1 ord2 hord1 hord2 n
+  exact ⟨rs, by simp [Builder.exportResourcesVTake, hrs], hiso⟩
+
+/-- a history with an abandoned export between two `Add`s (the shape of seeded defect C17r2-1): the
+    complete export that follows yields both resources, the once-referenced `_:0` inlined -/
+example : ((Builder.empty.run
+      [HStep.add [⟨Term.iri [1], [112], Term.bnode 0⟩, ⟨Term.bnode 0, [112], Term.iri [2]⟩],
+       HStep.exportRs Opts.default [Term.iri [1], Term.bnode 0] [Term.iri [1], Term.bnode 0] (some 0),
+       HStep.add [⟨Term.iri [3], [112], Term.bnode 1⟩]]).exportResourcesVTake Opts.default
+        [Term.iri [1], Term.bnode 0, Term.iri [3]] [Term.iri [1], Term.bnode 0, Term.iri [3]] 4 none).map
+      (fun rs => (rs.length, (newTriplesList rs 0).1.length)) = some (2, 3) := by
+  decide
+
 /-! ## rdfdescriptionutil.NewObjectValueListStatement -/
 
 omit [DecidableEq β] in
